@@ -547,21 +547,53 @@ class Config:
         self.__dict__.update(locals())
 
 
-def run_config(ctx, pid, cfg):
-    """TLC (requirements + graph dump) and edge-cover / simulate replay for one configuration."""
+def _setup(ctx, cfg):
     import zlib
     rnd = random.Random(ctx.seed ^ zlib.crc32(cfg.name.encode()))
     uni = W.Universe(spelling=cfg.spelling)
-    judge = JUDGES[pid]
     init_jobs = uni.order[:cfg.init_jobs] if isinstance(cfg.init_jobs, int) else cfg.init_jobs
     mc = W.write_mc(ctx, uni, cfg.ops, cfg.name, init_jobs=init_jobs, init_cache=cfg.init_cache)
     work = os.path.dirname(mc)
     mk = lambda depth, inv=(), props=(), view=False: W.mc_cfg(uni, cfg.projects, cfg.handles, cfg.docvals, cfg.files, cfg.fvals, depth, inv, props, view)
-    results = []
+    return rnd, uni, mc, work, mk
+
+
+def _tlc_phase(ctx, cfg, workers):
+    """all TLC runs of one configuration (they only need the spec); run for several configurations at once"""
+    rnd, uni, mc, work, mk = _setup(ctx, cfg)
+    pre = {}
+    if cfg.depth:
+        pre["main"] = tlc.run(mc, cfg_text=mk(cfg.depth, cfg.invariants, cfg.properties), workdir=work, dump=os.path.join(work, "g.dot"), coverage=True, workers=workers)
+        for kind, prop in cfg.strict:
+            pre[("strict", prop)] = tlc.run(mc, cfg_text=mk(cfg.depth, (prop,) if kind == "invariants" else (), (prop,) if kind == "properties" else (), view=False),
+                                            workdir=work, coverage=False, workers=workers)
+    if cfg.sim_num:
+        simdir = os.path.join(work, "sim")
+        os.makedirs(simdir, exist_ok=True)
+        pre["sim"] = tlc.run(mc, cfg_text=mk(10**6, cfg.invariants, cfg.properties), workdir=work, simulate="file=%s/tr,num=%d" % (simdir, cfg.sim_num),
+                             depth=cfg.sim_depth, seed=rnd.randrange(10**6), workers=1, coverage=False)
+    return pre
+
+
+def run_configs(ctx, pid, cfgs):
+    """TLC for all configurations concurrently (TLC subprocesses only), then the replays one configuration at a time"""
+    from concurrent.futures import ThreadPoolExecutor
+    with ThreadPoolExecutor(max_workers=4) as ex:
+        pres = list(ex.map(lambda c: _tlc_phase(ctx, c, 5), cfgs))
+    for c, pre in zip(cfgs, pres):
+        run_config(ctx, pid, c, pre)
+
+
+def run_config(ctx, pid, cfg, pre=None):
+    """TLC (requirements + graph dump) and edge-cover / simulate replay for one configuration."""
+    if pre is None:
+        pre = _tlc_phase(ctx, cfg, 16)
+    rnd, uni, mc, work, mk = _setup(ctx, cfg)
+    judge = JUDGES[pid]
     if cfg.depth:
         dot = os.path.join(work, "g.dot")
         # (1) conformant model + the requirements expected to hold, with the labelled graph
-        r = tlc.run(mc, cfg_text=mk(cfg.depth, cfg.invariants, cfg.properties), workdir=work, dump=dot, coverage=True)
+        r = pre["main"]
         ctx.add_tlc("%s: %s depth %d" % (pid, cfg.name, cfg.depth - 1), r)
         if r.violation:
             _requirement_violation(ctx, pid, cfg, uni, r, judge)
@@ -578,16 +610,13 @@ def run_config(ctx, pid, cfg):
             _G.clear()
         # (2) strict requirements the conformant model is expected to violate where the code does
         for kind, prop in cfg.strict:
-            r2 = tlc.run(mc, cfg_text=mk(cfg.depth, (prop,) if kind == "invariants" else (), (prop,) if kind == "properties" else (), view=False),
-                         workdir=work, coverage=False)
+            r2 = pre[("strict", prop)]
             ctx.add_tlc("%s: %s strict %s" % (pid, cfg.name, prop), r2)
             if r2.violation:
                 _requirement_violation(ctx, pid, cfg, uni, r2, judge)
     if cfg.sim_num:
         simdir = os.path.join(work, "sim")
-        os.makedirs(simdir, exist_ok=True)
-        r3 = tlc.run(mc, cfg_text=mk(10**6, cfg.invariants, cfg.properties), workdir=work, simulate="file=%s/tr,num=%d" % (simdir, cfg.sim_num),
-                     depth=cfg.sim_depth, seed=rnd.randrange(10**6), workers=1, coverage=False)
+        r3 = pre["sim"]
         if r3.violation:
             _requirement_violation(ctx, pid, cfg, uni, r3, judge)
         behs = []
